@@ -399,7 +399,11 @@ class SqlalchemyRender:
         except AttributeError:
             raise NotImplementedError(f'Function name: {t.op}')
         if t.from_arg is not None:
-            arg = t.args[0].to_string()
+            if t.op.lower() == 'extract':
+                # the field name in front of FROM (extract(MONTH FROM col)) is passed on as text
+                arg = t.args[0].to_string()
+            else:
+                arg = self.to_expression(t.args[0])
             from_arg = self.to_expression(t.from_arg)
 
             try:
